@@ -123,6 +123,8 @@ def upload_plan(rec):
     d = dict(rec) if rec != "bad" else {}
     b, w = d.get("blksize", 512), d.get("windowsize", 1)
     nfull = min(min(w, 300), max(1, 49152 // max(b, 1)))
+    if 1000000 < b * w <= 1250000 and w <= 2100:
+        nfull = w      # a whole window of just over 1 MiB is uploaded in full (paced)
     data = b"".join(gen_bytes(b, k) for k in range(1, nfull + 1)) + b"abc"
     return nfull, b, w, data
 
@@ -395,6 +397,19 @@ class C09(ServerProp):
             opts = rand_optlist(rng, hostile=rng.random() < 0.15)
             name = b"f" if kind == "rrq" else rng.choice([b"up", b"f"])
             lines.append("req %s %s %s %s" % (self.root(i), flags, fs, rq(kind, name, opts).hex()))
+        # directed: large blksize x windowsize products (a window of just over 1 MiB, uploaded in full and paced) and the
+        # products just below; option order varied; both port modes
+        big = [(1468, 715), (1468, 714), (512, 2049), (512, 2047), (16384, 65), (16384, 63), (65464, 17), (65464, 15), (8192, 128)]
+        i = n
+        for (bb, ww) in big if tier == "thorough" else big[:7:2] + [(65464, 15)]:
+            for flags in (["-", "s"] if tier == "thorough" else [rng.choice(["-", "s"])]):
+                o = [("blksize", bb), ("windowsize", ww)]
+                if rng.random() < 0.5:
+                    o.reverse()
+                if rng.random() < 0.3:
+                    o.append(("tsize", bb * ww + 3))
+                lines.append("req %s %s srv/f=gen:5:1 %s" % (self.root(i), flags, rq("wrq", b"bigup", tuple(o)).hex()))
+                i += 1
         # real time: the retransmission interval is the acknowledged timeout (one run per port mode, in parallel)
         tv = [1] if tier == "quick" else [1, 2]
         j = 0
@@ -616,7 +631,7 @@ class C12(ServerProp):
     module = "Tftp.Props.C12"
     nroots = 8
     rule = ("K scripted clients (K = 2..4 quick, up to 9 thorough) against the in-process server — downloads, uploads to distinct names, intruders sending ACK/DATA/ERROR/OACK to the "
-            "listening port from endpoints that own no transfer — interleaved turn by turn under a schedule: all schedules of length 6 for K = 2 short transfers, seeded random schedules "
+            "listening port from endpoints that own no transfer, strangers sending undecodable and well-formed datagrams to the endpoint (port) that serves another client's running transfer — interleaved turn by turn under a schedule: all schedules of length 6 for K = 2 short transfers, seeded random schedules "
             "beyond, in both port modes; per client the outcome (bytes received / file stored / ERROR code) and the source-port class of every server datagram are compared with the "
             "solo prediction; non-trivial = distinct (clients, schedule) with at least two clients")
 
@@ -636,8 +651,10 @@ class C12(ServerProp):
                 # at most ~24 blocks: every turn of a scripted client costs a quiet-wait
                 usz = rng.choice([0, 5, ub - 1, ub, 2 * ub + 3, 5 * ub, 12 * ub + 1, 24 * ub - 1])
                 cl.append("u:up%d:%d:%d:gen:%d:%d" % (ups, ub, rng.choice([1, 2, 4]), usz, rng.randint(0, 255)))
-            else:
+            elif r < 0.93 or i == 0:
                 cl.append("i:" + rng.choice(["ack", "data", "err", "oack"]))
+            else:
+                cl.append("x:%d:%s" % (rng.randint(0, i - 1), rng.choice(["empty", "one", "opcode", "shortack", "noise", "unterminated", "ack", "data", "err"])))
         fs = ",".join("srv/%s=%s" % (n, c) for n, c in files.items())
         return cl, fs
 
@@ -662,6 +679,15 @@ class C12(ServerProp):
                     i += 1
                     lines.append("multi %s %s srv/c=gen:16:3,srv/big=gen:9000:5 %s d:big:4096:2 %s" % (self.root(i), flags, sched, second))
                     i += 1
+        # directed: a stranger (an endpoint that owns no transfer) sends seven datagrams - undecodable ones and well-formed ones - to the very
+        # endpoint that serves a running transfer (its own port in multi-port mode), at different moments of that transfer
+        whats = ["empty", "one", "opcode", "shortack", "noise", "unterminated", "ack", "data", "err"]
+        for flags in ["-", "s"]:
+            for what in (whats if tier == "thorough" else whats[:6:2] + [rng.choice(whats[6:])] + [rng.choice(whats[1:6:2])]):
+                for victim in ["d:big:512:1", "d:big:1024:2", "u:up1:512:1:gen:3000:7", "u:up1:512:2:gen:2100:8"]:
+                    for sched in (["01", "001", "00001"] if tier == "thorough" else [rng.choice(["01", "001", "0001"])]):
+                        lines.append("multi %s %s srv/big=gen:3000:5 %s %s x:0:%s" % (self.root(i), flags, sched, victim, what))
+                        i += 1
         n = 250 if tier == "quick" else 6000
         for _ in range(n):
             k = rng.randint(2, 4 if tier == "quick" else 9)
